@@ -145,7 +145,7 @@ func c02PhiAlts(phi *ssa.Phi, truth bool, depth int) [][]Atom {
 	if !truth {
 		val = "false"
 	}
-	self := Atom{Path(phi), "==", val}
+	self := mkAtom(Path(phi), "==", val)
 	if depth > 6 {
 		return [][]Atom{{self}}
 	}
